@@ -60,13 +60,23 @@ class ToolchainGen:
         rng, m = self.rng, self.m
         kinds = ['set', 'set', 'del', 'pop', 'setdefault', 'update',
                  'update_kw', 'ior', 'compile_options', 'link_options',
-                 'compiler', 'popitem', 'which', 'lib_options', 'clear']
+                 'compiler', 'popitem', 'which', 'lib_options', 'clear',
+                 'append', 'append']
         k = rng.choice(kinds)
         self.used.add(k)
         if k == 'set':
             n, v = self.rand_name(), self.rand_value()
             self.emit('environ[{!r}] = {!r}'.format(n, v))
             m[n] = v
+        elif k == 'append':
+            # read-modify-write: not idempotent over its own earlier effect,
+            # so it only stays stable if every run starts from the saved
+            # *initial* variables
+            n = rng.choice(['CFLAGS', 'CPPFLAGS', 'FOO', 'LDFLAGS'])
+            v = rng.choice([' -DTC', ' -g', ' extra'])
+            self.emit('environ[{0!r}] = environ.get({0!r}, "") + {1!r}'
+                      .format(n, v))
+            m[n] = m.get(n, '') + v
         elif k == 'del':
             cands = [n for n in m if n in NAME_POOL]
             if not cands:
